@@ -44,7 +44,8 @@ TRUSTED = [
     "implicitly commits) and the claim that PostgreSQL/MSSQL servers behave like `transactional` are NOT validated (no server in the sandbox)",
     "the version-table statements of each step (INSERT/UPDATE/DELETE rows) are read from a non-failing run of the real HeadMaintainer and "
     "passed to the model as parameters; the theorems hold for every value of them (the row algebra itself is property C03)",
-    "the failure oracle raises a Python exception between statements (or from a before_cursor_execute hook for the version statements); "
+    "the failure oracle raises a Python exception (Exception subclass, KeyboardInterrupt, SystemExit or another BaseException; the model "
+    "carries the kind in Atom.raise and provably never consults it) between statements (or from a before_cursor_execute hook for the version statements); "
     "failures of COMMIT itself and crashes of the process/connection are out of scope",
     "observation: sqlite_master table names, rows of the `data` table and alembic_version rows through a fresh connection "
     "(harness/online_impl.py:observe)",
@@ -53,8 +54,11 @@ RULE = (
     "script = history (linear or branched, 1-4 revisions) x bodies (0-4 DDL/DML statements in plain/autocommit segments, downgrade "
     "undoes upgrade) x command (upgrade/downgrade from a reachable state); for every script: every config in "
     "{pysqlite,recipe} x transactional_ddl{default,True} x transaction_per_migration x external-transaction{no,yes}, and EVERY failure "
-    "position (k, pos) of the plan (before/between/after each statement, around autocommit blocks, inside and after the version update) "
-    "plus the run without failure; a case is non-trivial when the run raised; distinct by (config, plan, k, pos)"
+    "position (k, pos) of the plan (before/between/after each statement, around autocommit blocks, inside and after the version update), "
+    "each position with an Exception AND with a BaseException that is not an Exception (KeyboardInterrupt / SystemExit / custom "
+    "BaseException, round robin; all four kinds for the fixed scripts), on the in-process path and on the command.upgrade/downgrade "
+    "path with the shipped env.py; plus the run without failure; a case is non-trivial when the run raised; distinct by "
+    "(config, plan, k, pos, kind)"
 )
 ASSUMPTIONS = [
     "env.py has the documented shape: with connectable.connect() as connection: configure(connection=...); "
@@ -186,7 +190,7 @@ def script_cases(ctx, script, configs, runner="inprocess", cfg_obj=None, scratch
             res, orc = oi.run_command(cfg_obj, script["bodies"], rev_index, script["cmd"], script["target"], config["engine"], fail)
         return res, orc, oi.observe(work, rev_index)
 
-    for config in configs:
+    for cfg_no, config in enumerate(configs):
         res, orc, fin = execute(config, None)
         ctx.evaluation()
         if res != "ok" and not (res == "err:assertion" and config.get("external")):
@@ -221,15 +225,19 @@ def script_cases(ctx, script, configs, runner="inprocess", cfg_obj=None, scratch
         }
         meta = {"runner": runner, "config": config, "script": script}
         yield dict(base_inp, fail=None), {"res": res, "final": fin, "eff": [orc.step, orc.pos] if res != "ok" else None}, meta
+        nonexc = ["keyboardInterrupt", "systemExit", "baseException"]
         for k, mig in enumerate(plan):
-            last = n_atoms(mig) if runner == "inprocess" else n_atoms(mig) - 0
-            for pos in range(0, last + 1):
+            for pos in range(0, n_atoms(mig) + 1):
                 if runner != "inprocess" and pos == n_atoms(mig):
-                    continue  # "after the version update" needs on_version_apply: in-process only
-                res, orc, fin = execute(config, (k, pos))
-                ctx.evaluation()
-                eff = [orc.step, orc.pos] if res != "ok" else None
-                yield dict(base_inp, fail={"k": k, "pos": pos}), {"res": res, "final": fin, "eff": eff}, meta
+                    continue  # "after the version update" needs an on_version_apply hook: in-process only
+                # every position: an Exception and (round robin, deterministic) one BaseException that is not an
+                # Exception; all four kinds when the script asks for it (fixed scripts, exhaustive domain)
+                kinds = ["exception"] + (nonexc if script.get("all_kinds") else [nonexc[(k + pos + cfg_no) % 3]])
+                for kind in kinds:
+                    res, orc, fin = execute(config, (k, pos, kind))
+                    ctx.evaluation()
+                    eff = [orc.step, orc.pos] if res != "ok" else None
+                    yield dict(base_inp, fail={"k": k, "pos": pos, "kind": kind}), {"res": res, "final": fin, "eff": eff}, meta
 
 
 def judge(ctx, pending):
@@ -237,7 +245,7 @@ def judge(ctx, pending):
     for inp, impl, meta in pending:
         ops.append({"op": "online.run", **inp})
         if impl["eff"] is not None:
-            ops.append({"op": "online.spec", **inp, "fail": {"k": impl["eff"][0], "pos": impl["eff"][1]},
+            ops.append({"op": "online.spec", **inp, "fail": {"k": impl["eff"][0], "pos": impl["eff"][1], "kind": (inp.get("fail") or {}).get("kind", "exception")},
                         "final": {k: impl["final"][k] for k in ("objs", "rows", "vt")}})
         else:
             ops.append({"op": "online.spec", **inp, "fail": None, "final": {k: impl["final"][k] for k in ("objs", "rows", "vt")}})
@@ -265,6 +273,8 @@ def judge(ctx, pending):
                      "inside version update" if p < n_atoms(mig) else "after version update")
             ctx.hist("failure_position", where)
             ctx.hist("failed_step_index", impl["eff"][0])
+            ctx.hist("failure_kind", (inp.get("fail") or {}).get("kind", "n/a") if impl["res"] == "boom" else impl["res"])
+            ctx.hist("kind x position x runner", "%s / %s / %s" % ((inp.get("fail") or {}).get("kind", impl["res"]), where, meta["runner"]))
         if raised and "hyp" in s:
             ctx.hist("hypotheses_of_model_satisfies_check_hold", s["hyp"])
         if "err" in s:
@@ -327,8 +337,8 @@ FIXED_SCRIPTS = [
 def fixed_scripts():
     out = []
     for s in FIXED_SCRIPTS:
-        out.append(s)
-        out.append(dict(s, cmd="downgrade", start=["heads"], target="base"))
+        out.append(dict(s, all_kinds=True))
+        out.append(dict(s, cmd="downgrade", start=["heads"], target="base", all_kinds=True))
     return out
 
 
@@ -426,7 +436,7 @@ def exhaustive_scripts(max_len=2):
 
 def run(ctx, n_scripts=None, rng_name="main"):
     rng = ctx.rng(rng_name)
-    n = n_scripts if n_scripts is not None else (1200 if ctx.thorough else 18)
+    n = n_scripts if n_scripts is not None else (1000 if ctx.thorough else 12)
     pending = []
     fixed = fixed_scripts()
     jobs = []
@@ -501,7 +511,7 @@ def replay(ctx, case):
     out = {}
     with oi.Scratch() as scratch:
         base = prepare_base(scratch, script, rev_index)
-        fail = (inp["fail"]["k"], inp["fail"]["pos"]) if inp.get("fail") else None
+        fail = (inp["fail"]["k"], inp["fail"]["pos"], inp["fail"].get("kind", "exception")) if inp.get("fail") else None
         if rec.get("runner") == "command":
             cfg_obj = oi.make_script_dir(scratch, script["hist"], base)
             res, orc = oi.run_command(cfg_obj, script["bodies"], rev_index, script["cmd"], script["target"], config["engine"], fail)
@@ -510,6 +520,6 @@ def replay(ctx, case):
         fin = oi.observe(base, rev_index)
     out["impl"] = {"res": res, "final": fin, "failed_at": [orc.step, orc.pos]}
     out["model"] = ctx.drv.ask1({"op": "online.run", **inp})
-    f = {"k": orc.step, "pos": orc.pos} if res != "ok" else None
+    f = {"k": orc.step, "pos": orc.pos, "kind": (inp.get("fail") or {}).get("kind", "exception")} if res != "ok" else None
     out["spec"] = ctx.drv.ask1({"op": "online.spec", **inp, "fail": f, "final": {k: fin[k] for k in ("objs", "rows", "vt")}})
     return out
